@@ -670,6 +670,65 @@ def run_dict_valued(ctx, i, rng):
       ctx.event('note.dict_valued:returned_tree_shares_dict_with_argument')
 
 
+def run_capture_with_denylist(ctx, i, rng):
+  """capture_intermediates (an observation feature) together with a DenyList `mutable` that names 'intermediates' AND other
+  collections: switching the capture on adds 'intermediates' to what is returned - it does not make any other denied collection
+  mutable (no write to it, not returned, a creation inside it still raises)."""
+  import jax
+  import jax.numpy as jnp
+  import flax.linen as nn
+  from flax import errors
+  from flax.core.scope import DenyList
+  denied = [['params', 'intermediates'], ['state', 'intermediates'], ['intermediates'], ['params', 'state', 'intermediates'],
+            ['intermediates', 'params']][i % 5]
+  form = ['list', 'tuple', 'single_or_list'][(i // 5) % 3]
+  capture = [True, (lambda m, n: True), True][(i // 15) % 3]
+  lazy_param = (i // 45) % 2 == 1     # the module would create a parameter that the supplied variables lack
+  d = denied if form == 'list' else tuple(denied) if form == 'tuple' else (denied[0] if len(denied) == 1 else denied)
+  desc = dict(denied=denied, form=form, capture=repr(capture)[:20], lazy_param=lazy_param)
+  with ctx.case('capture_denylist', i, desc, nontrivial=len(denied) >= 2):
+    class M(nn.Module):
+      @nn.compact
+      def __call__(self, x):
+        y = nn.Dense(2, name='d')(x)
+        if lazy_param:
+          y = y + self.param('late', nn.initializers.ones, (2,))
+        n = self.variable('state', 'n', lambda: jnp.zeros(()))
+        if self.is_mutable_collection('state'):
+          n.value = n.value + 1.0
+        self.sow('intermediates', 'y', y)
+        return y + n.value
+
+    x = jnp.ones((1, 3))
+    v = M().init(jax.random.key(0), x)
+    v = {c: t for c, t in v.items() if c != 'intermediates'}
+    if lazy_param:
+      v = {**v, 'params': {k: t for k, t in v['params'].items() if k != 'late'}}
+    import copy
+    before = jax.tree_util.tree_map(lambda a: np.asarray(a).copy(), v)
+    mut = DenyList(d)
+    try:
+      y, upd = M().apply(v, x, mutable=mut, capture_intermediates=capture, rngs={'params': jax.random.key(1)})
+      raised = None
+    except (errors.ScopeParamNotFoundError, errors.ModifyScopeVariableError, errors.ScopeCollectionNotFound) as e:
+      y, upd, raised = None, {}, e
+    ctx.op('apply(mutable=DenyList(..intermediates..), capture_intermediates)')
+    ctx.check(tree_bytes_equal(before, v), 'input_unchanged:variables:capture_with_denylist', lambda: dict(case=desc))
+    if lazy_param and 'params' in denied:
+      ctx.check(raised is not None, 'capture_widens_mutability:denied_collection_written', lambda: dict(case=desc, returned=sorted(upd)))
+      return
+    if not ctx.check(raised is None, 'capture_with_denylist:raised', lambda: dict(case=desc, error=repr(raised)[:200])):
+      return
+    want = {c for c in ('params', 'state') if c not in denied} | {'intermediates'}
+    ctx.check(set(upd) == want, 'capture_widens_mutability:returned_collections', lambda: dict(case=desc, returned=sorted(upd), want=sorted(want)))
+    if 'state' in denied:
+      ctx.check('state' not in upd, 'capture_widens_mutability:denied_collection_written', lambda: dict(case=desc))
+    # the same call without the capture returns the same non-intermediates collections
+    y0, upd0 = M().apply(v, x, mutable=mut, rngs={'params': jax.random.key(1)})
+    ctx.check(set(upd0) == want - ({'intermediates'} if 'intermediates' in denied else set()) and tree_bytes_equal(y, y0),
+              'observation_inert:capture_with_denylist', lambda: dict(case=desc, without_capture=sorted(upd0)))
+
+
 def run_nested_apply(ctx, i, rng):
   """A module method that itself calls another module's init/apply (functional use inside a module): the inner call is a call of its
   own - an observation feature switched on for the OUTER call (capture_intermediates, a mutable intermediates collection) must not
@@ -726,6 +785,8 @@ def run(ctx):
   log = PutLog(ctx)
   for i in ctx.indices(30, 'nested_apply'):
     run_nested_apply(ctx, i, ctx.rng('nested_apply', i))
+  for i in ctx.indices(90, 'capture_denylist'):
+    run_capture_with_denylist(ctx, i, ctx.rng('capture_denylist', i))
   for i in ctx.indices(240, 'dict_valued'):
     run_dict_valued(ctx, i, ctx.rng('dict_valued', i))
   for i in ctx.indices(60 if ctx.tier == 'quick' else 600, 'bound'):
